@@ -81,8 +81,9 @@ def _tree(lines):
         # the known classes, each tied to the construct its code path needs
         if cls == "nil-dereference" and mode == "frag" and cx == "none" and ("<select" in feat or "<input" in feat):
             return "parse:error-returned:nil-dereference;frag;ctx=none;input-has-select-or-input-start-tag"
-        if cls == "nil-dereference" and mode == "frag" and cx == "foreign" and "</html" in feat:
-            return "parse:error-returned:nil-dereference;frag;ctx=foreign;input-has-html-end-tag"
+        if cls in ("nil-dereference", "index-out-of-range") and mode == "frag" and cx == "foreign" and "</html" in feat:
+            # </html> pops the root html element; the next token finds an empty stack of open elements
+            return "parse:error-returned;frag;ctx=foreign;html-end-tag-pops-the-root-element"
         if mode == "frag" and cx == "head":
             # one root cause: resetInsertionMode picks inHeadIM for a <head> context although only the
             # root html element is on the stack (marked TODO in the code); inHeadIM / inHeadNoscriptIM
